@@ -17,6 +17,12 @@ def filterE {α : Type} (f : α → Except String Bool) : List α → Except Str
       | .error e => .error e
       | .ok r => .ok (if b then x :: r else r)
 
+/-- `xs[i]` for a literal `i ≥ 0`: `IndexError` past the end -/
+def getIdx {α : Type} : List α → Nat → Except String α
+  | [], _ => .error "ERR:Index"
+  | x :: _, 0 => .ok x
+  | _ :: xs, i + 1 => getIdx xs i
+
 /-- a comprehension whose test never raises is `List.filter` -/
 theorem filterE_ok {α : Type} (f : α → Except String Bool) (g : α → Bool) (h : ∀ x, f x = .ok (g x)) :
     ∀ l : List α, filterE f l = .ok (l.filter g) := by
